@@ -61,6 +61,10 @@ type State struct {
 	gs       []*G
 	cur      int
 	progress int
+	// preemptsLeft > 0: at synchronisation points (zz.Preempt, mutex unlocks, modelled sync.Map
+	// operations) the running goroutine may additionally be switched out (a schedule choice the
+	// engine forks on), at most this many times per path; 0 = cooperative switching only
+	preemptsLeft int
 	frames   []*Frame
 	heap     map[int]Value
 	globals  map[*ssa.Global]int
